@@ -274,6 +274,12 @@ func (in *Interp) load(fr *frame, p Value, t types.Type) Value {
 	case nil:
 		in.nilDeref(fr)
 	}
+	if t0, ok := p.(*Term); ok {
+		// an integer word used as a pointer: the address of a known cell
+		if obj := in.objAtAddr(t0); obj != nil {
+			return in.load(fr, obj, t)
+		}
+	}
 	panic(fmt.Sprintf("load through %T at %s", p, fr.site()))
 }
 
@@ -1203,6 +1209,12 @@ func (in *Interp) equal(fr *frame, a, b Value) *Term {
 				if y == nil {
 					return Eq(x, BV(64, 0))
 				}
+				// the address of a cell that was converted to an integer earlier
+				if obj := in.objAtAddr(x); obj != nil {
+					if p, ok := obj.(*Value); ok {
+						return Bool(p == y)
+					}
+				}
 				return FalseT
 			case CastPtr:
 				return in.equal(fr, a, y.p)
@@ -1637,6 +1649,11 @@ func (in *Interp) fieldAddr(fr *frame, pv Value, field int, pt types.Type) Value
 		st := pt.Underlying().(*types.Pointer).Elem().Underlying().(*types.Struct)
 		off := in.fieldOffset(st, field)
 		return CastPtr{p: ImgPtr{addr: Add(p.addr, BV(64, uint64(off)))}, t: st.Field(field).Type()}
+	case *Term:
+		// an integer word used as a pointer: the address of a known cell
+		if obj := in.objAtAddr(p); obj != nil {
+			return in.fieldAddr(fr, obj, field, pt)
+		}
 	case nil:
 		in.nilDeref(fr)
 	}
